@@ -818,6 +818,8 @@ def sstep_coq(st):
         return '(STake %d%%nat)' % st[1]
     if k == 'finish':
         return '(SFinish %d%%nat)' % st[1]
+    if k == 'close':
+        return 'SClose'
     return 'SRecv'
 
 
@@ -835,6 +837,9 @@ def closed_check(res, pid, n):
         spec = dict(seed=rng.randrange(1 << 30), n=rng.choice([0, 1, 2, 3, 5, 8, 12]))
         if rng.random() < 0.25:
             spec['stop_after'] = rng.randrange(0, 6 * spec['n'] + 1)
+        if rng.random() < 0.6:
+            spec['may_close'] = True
+            spec['close_early'] = rng.choice([0.0, 0.02, 0.1])
         reqs.append(dict(cfg=cfg, closed=spec))
     outs = []
     for part in core.chunks(reqs, 200):
@@ -852,12 +857,13 @@ def closed_check(res, pid, n):
             last = o['obs'][-1] if o['obs'] else None
             bad = []
             if last is not None:
-                if len(last['jobs']) != r['closed']['n']:
-                    bad.append('%d jobs exist, %d were submitted' % (len(last['jobs']), r['closed']['n']))
+                accepted = sum(1 for e, ob in zip(o['events'], o['obs']) if e[0] == 'apply' and ob['ret'] is None and not ob['exc'])
+                if len(last['jobs']) != accepted or (last['state'] == 0 and accepted != r['closed']['n']):
+                    bad.append('%d jobs exist, %d calls were accepted, %d made' % (len(last['jobs']), accepted, r['closed']['n']))
                 for k, j in enumerate(last['jobs']):
                     if not j['ready'] or j['val'] != ['ok', k] or j['cb'][0] != 1 or j['cb'][1] != 0:
                         bad.append('job %d: ready=%s value=%s callbacks=%s' % (k, j['ready'], j['val'], j['cb'][:2]))
-                if r['cfg']['putlocks'] and last['sem'][0] != last['sem'][1]:
+                if r['cfg']['putlocks'] and last['state'] == 0 and last['sem'][0] != last['sem'][1]:
                     bad.append('slots free %s of %s' % (last['sem'][0], last['sem'][1]))
             elif r['closed']['n']:
                 bad.append('nothing happened')
